@@ -57,7 +57,7 @@ from vtlengine.AST.Grammar.tokens import (
     VIRAL_ATTRIBUTE,
 )
 from vtlengine.DataTypes import SCALAR_TYPES_CLASS_REVERSE
-from vtlengine.Model import Component, Dataset
+from vtlengine.Model import Component, Dataset, Scalar
 
 nl = "\n"
 tab = "\t"
@@ -308,6 +308,9 @@ class ASTString(ASTTemplate):
             argument_type = "dataset"
         elif isinstance(node.type_, Component):
             argument_type = "component"
+        elif isinstance(node.type_, Scalar):
+            # a parameter declared `scalar` (any scalar type) carries a Scalar instance, not a type class
+            argument_type = "scalar"
         else:
             argument_type = node.type_.__name__.lower()
 
